@@ -91,6 +91,10 @@ class AssertionFailed(Exception):
     pass
 
 
+class ModelError(Exception):
+    """The interpreted code itself fails on a model input (IndexError, KeyError, ...)."""
+
+
 class Interp:
     """Interprets the statements of one function.  `effects` receives
     (method name, receiver, evaluated args) for calls on `self` / model objects
@@ -193,6 +197,18 @@ class Interp:
         elif isinstance(st, ast.Assert):
             if not self.truth(self.ev(st.test)):
                 raise AssertionFailed(norm(st))
+        elif isinstance(st, ast.Delete):
+            for t in st.targets:
+                if not isinstance(t, ast.Subscript):
+                    raise Unsupported(st, "(del of a non-subscript)")
+                c = self.ev(t.value)
+                k = self.ev(t.slice)
+                if not isinstance(c, (list, dict)):
+                    raise Unsupported(st, "(del on a non-container)")
+                try:
+                    del c[k]
+                except (IndexError, KeyError):
+                    raise ModelError(f"line {st.lineno}: `{norm(st)}` fails in the model (index {k!r} of a container of size {len(c)})")
         else:
             raise Unsupported(st)
 
@@ -307,7 +323,9 @@ class Interp:
                 return Opaque(c.label + "[]")
             try:
                 return c[k]
-            except (KeyError, IndexError, TypeError):
+            except (KeyError, IndexError):
+                raise ModelError(f"line {e.lineno}: `{norm(e)}` fails in the model (key {k!r})")
+            except TypeError:
                 raise Unsupported(e, "(subscript out of the model)")
         if isinstance(e, ast.Call):
             return self.call(e)
@@ -406,13 +424,27 @@ class Interp:
         # builtins on concrete values
         if isinstance(f, ast.Name):
             nm = f.id
-            if nm in ("len", "set", "list", "tuple", "sorted", "bool", "int", "dict", "frozenset", "any", "all", "enumerate", "zip", "range") and nm not in self.env:
+            if nm in ("len", "set", "list", "tuple", "sorted", "bool", "int", "dict", "frozenset", "any", "all", "enumerate", "zip", "range", "max", "min", "sum", "reversed") and nm not in self.env:
                 args = self.elts(e.args)
+                kwargs = {k.arg: self.ev(k.value) for k in e.keywords if k.arg}
                 if any(isinstance(a, Opaque) for a in args):
                     return Opaque(nm)
                 try:
                     if nm == "sorted":
-                        return sorted(args[0], key=repr)
+                        if "key" in kwargs:
+                            raise Unsupported(e, "(sorted with a key)")
+                        try:
+                            return sorted(args[0], reverse=bool(kwargs.get("reverse", False)))
+                        except TypeError:
+                            return sorted(args[0], key=repr, reverse=bool(kwargs.get("reverse", False)))
+                    if kwargs:
+                        raise Unsupported(e, "(keyword arguments to a builtin)")
+                    if nm in ("max", "min", "sum"):
+                        if len(args) == 1 and not args[0] and nm != "sum":
+                            raise ModelError(f"line {e.lineno}: {nm}() of an empty sequence in the model")
+                        return {"max": max, "min": min, "sum": sum}[nm](*args)
+                    if nm == "reversed":
+                        return list(reversed(args[0]))
                     if nm in ("enumerate", "zip", "range"):
                         return list({"enumerate": enumerate, "zip": zip, "range": range}[nm](*args))
                     if nm in ("any", "all"):
@@ -429,7 +461,10 @@ class Interp:
                         return any(verdicts)
                 raise Unsupported(e, "(isinstance on a model value)")
             if nm in self.funcs and nm not in self.env:
-                return self.funcs[nm](self.elts(e.args))
+                h = self.funcs[nm]
+                if getattr(h, "wants_kwargs", False):
+                    return h(self.elts(e.args), {k.arg: self.ev(k.value) for k in e.keywords if k.arg})
+                return h(self.elts(e.args))
             if nm in self.module_defs and nm not in self.env:
                 return self.call_def(self.module_defs[nm], self.elts(e.args), e)
             # any other function: opaque result (constructors, unite_values, ...)
